@@ -643,11 +643,18 @@ func (sp *Spec) ParseContractFile(path, defaultPkg string) error {
 				}
 			} else {
 				// strip a signature if given: keep up to first space or '(' after the name
-				m := regexp.MustCompile(`^(\(\*?[A-Za-z0-9_]+\)\.)?([A-Za-z0-9_$]+)`).FindStringSubmatch(rest)
+				m := regexp.MustCompile(`^(\(\*?[A-Za-z0-9_]+\)\.)?([A-Za-z0-9_$]+)(?:\s*\(([A-Za-z0-9_, ]*)\))?`).FindStringSubmatch(rest)
 				if m == nil {
 					return fail("bad func key %q", rest)
 				}
 				fc.Key = m[1] + m[2]
+				if isIface {
+					for _, pn := range strings.Split(m[3], ",") {
+						if pn = strings.TrimSpace(pn); pn != "" {
+							fc.Params = append(fc.Params, pn)
+						}
+					}
+				}
 			}
 			k := fc.Pkg + "::" + fc.Key
 			if _, dup := sp.Funcs[k]; dup {
